@@ -145,7 +145,7 @@ macro_rules! lag_kind {
                     () => {
                         if let Some(s) = s0.as_mut() {
                             loop {
-                                match tokio::time::timeout(Duration::from_nanos(1), s.recv()).await {
+                                match crate::recv_selectlike!(s) {
                                     Ok(Ok(Some(e))) => {
                                         let mut c = states.last().unwrap().clone();
                                         $hand(&mut c, &e);
@@ -241,7 +241,7 @@ macro_rules! lag_kind {
                             if let Some(s) = subs.get_mut(*i) {
                                 if let (Some(h), false) = (s.hand.as_mut(), s.stopped) {
                                     for _ in 0..*k {
-                                        match tokio::time::timeout(Duration::from_nanos(1), h.recv()).await {
+                                        match crate::recv_selectlike!(h) {
                                             Err(_) => break,
                                             Ok(Ok(Some(e))) => s.log.push(e),
                                             Ok(Ok(None)) => break,
@@ -710,7 +710,7 @@ fn exec_list(init: &[u128], steps: &[Step]) -> Option<Outcome> {
                     if let Some(s) = subs.get_mut(*i) {
                         if let (Some(h), false) = (s.hand.as_mut(), s.stopped) {
                             for _ in 0..*k {
-                                match tokio::time::timeout(Duration::from_nanos(1), h.recv()).await {
+                                match crate::recv_selectlike!(h) {
                                     Err(_) => break,
                                     Ok(Ok(Some(e))) => s.log.push(e),
                                     Ok(Ok(None)) => break,
@@ -877,7 +877,7 @@ fn exec_remote(init: &[u128], steps: &[Step]) -> Option<Outcome> {
             () => {
                 if let Some(s) = s0.as_mut() {
                     loop {
-                        match tokio::time::timeout(Duration::from_nanos(1), s.recv()).await {
+                        match crate::recv_selectlike!(s) {
                             Ok(Ok(Some(e))) => {
                                 let mut c = states.last().unwrap().clone();
                                 vec_hand(&mut c, &e);
@@ -932,7 +932,7 @@ fn exec_remote(init: &[u128], steps: &[Step]) -> Option<Outcome> {
                     if let Some(s) = subs.get_mut(*i) {
                         if let (Some(h), 0) = (s.hand.as_mut(), s.hand_err) {
                             for _ in 0..*k {
-                                match tokio::time::timeout(Duration::from_nanos(1), h.recv()).await {
+                                match crate::recv_selectlike!(h) {
                                     Err(_) => break,
                                     Ok(Ok(Some(e))) => vec_hand(&mut s.hand_v, &e),
                                     Ok(Ok(None)) => break,
